@@ -200,6 +200,50 @@ func TestC06(t *testing.T) {
 				sum.Samples = append(sum.Samples, map[string]any{"before": before, "reply": rep.V, "after": after, "read_repair": rr})
 			}
 		}
+		// the newest copy is the owner's and its expiry has passed, older copies without expiry exist elsewhere: the newest
+		// write says "expired", so the read answers not-found - it does not fall back to an older copy
+		for code := 0; code < 256; code++ {
+			x, tsA, others, maxOther := code, 0, 0, 0
+			for _, s := range slots {
+				ts := x % 4
+				x /= 4
+				if s.pos == "A" {
+					tsA = ts
+				} else if ts != 0 {
+					others++
+					if ts > maxOther {
+						maxOther = ts
+					}
+				}
+			}
+			if tsA == 0 || others == 0 || maxOther >= tsA {
+				continue
+			}
+			key := nextKey()
+			x = code
+			for _, s := range slots {
+				ts := x % 4
+				x /= 4
+				if ts == 0 {
+					continue
+				}
+				ttl := int64(0)
+				if s.pos == "A" {
+					ttl = time.Now().Add(-2 * time.Second).UnixMilli()
+				}
+				if err := s.m.V.DMap.VerifPutRaw("c06", key, []byte(fmt.Sprintf("%s%d", s.pos, ts)), ttl, int64(1000+ts), s.kind); err != nil {
+					t.Fatal(err)
+				}
+			}
+			before := read(key)
+			p := paths[rng.Intn(len(paths))]
+			sum.Paths[p.Name()]++
+			rep := p.Get(ctx, "c06", key)
+			n++
+			sum.Evaluations++
+			sum.DistinctNontrivial++
+			w.Emit(trace.Ev{"t": "readexp", "n": n, "rr": rr, "before": before, "ret": rep.Ret, "v": rep.V, "path": p.Name(), "detail": rep.Err})
+		}
 		for _, p := range paths {
 			p.Close()
 		}
